@@ -192,10 +192,10 @@ func (tg *txnGen) txn(maxOps int) []TOp {
 	// whatever the seed (the coin flips below remain)
 	tg.turn++
 	if tg.turn == 1 {
-		tg.rot = g.Intn(6) // a generator lives for one history: start the rotation somewhere else each time
+		tg.rot = g.Intn(7) // a generator lives for one history: start the rotation somewhere else each time
 	}
 	if tg.turn%3 == 0 {
-		patterns := []func() []TOp{tg.twice, tg.bounded, tg.keepExisting, tg.mixedDelete, tg.reinsert, tg.readThenCollide}
+		patterns := []func() []TOp{tg.twice, tg.bounded, tg.keepExisting, tg.mixedDelete, tg.reinsert, tg.readThenCollide, tg.crossLookup}
 		for k := 0; k < len(patterns); k++ {
 			if ops := patterns[(tg.turn/3+tg.rot+k)%len(patterns)](); len(ops) > 0 {
 				return ops
@@ -229,6 +229,11 @@ func (tg *txnGen) txn(maxOps int) []TOp {
 	}
 	if g.Chance(0.06) {
 		if ops := tg.readThenCollide(); len(ops) > 0 {
+			return ops
+		}
+	}
+	if g.Chance(0.06) {
+		if ops := tg.crossLookup(); len(ops) > 0 {
 			return ops
 		}
 	}
@@ -580,6 +585,50 @@ func (tg *txnGen) reinsert() []TOp {
 
 // readThenCollide: a committed row is brought into the transaction by reading it (select, wait, an update that changes
 // nothing), then another row is given its value in a schema index: the transaction must be refused whatever was read.
+// crossLookup: a read whose conditions are answered by different rows - the indexed value of one row together with
+// the _uuid of another, or the indexed values of two rows - selects nothing and must leave nothing behind: the same
+// transaction then reads the first row by its indexed value alone, and uses that value again for a second row (the
+// unique index must still refuse it).
+func (tg *txnGen) crossLookup() []TOp {
+	g := tg.g
+	for _, ti := range g.R.Perm(len(tg.sc.Tables)) {
+		t := &tg.sc.Tables[ti]
+		us := tg.uuidsOf(t.Name)
+		if len(us) < 2 || len(t.Indexes) == 0 {
+			continue
+		}
+		idx := t.Indexes[g.Intn(len(t.Indexes))]
+		if len(idx) != 1 {
+			continue
+		}
+		a := us[g.Intn(len(us))]
+		b := us[(g.Intn(len(us)-1)+1+indexOf(us, a))%len(us)]
+		va, vb := tg.state[t.Name][a][idx[0]], tg.state[t.Name][b][idx[0]]
+		byIdx := func(v val.Val) Cond { return Cond{Col: idx[0], Fn: "==", Arg: v} }
+		byU := func(u string) Cond { return Cond{Col: "_uuid", Fn: "==", Arg: val.VA(val.Uuid(u))} }
+		var cross []Cond
+		switch g.Intn(3) {
+		case 0:
+			cross = []Cond{byIdx(va), byU(b)}
+		case 1:
+			cross = []Cond{byU(b), byIdx(va)}
+		default:
+			cross = []Cond{byIdx(va), byIdx(vb)}
+		}
+		ops := []TOp{{Kind: "select", Table: t.Name, Where: cross}}
+		if g.Chance(0.5) {
+			ops[0] = TOp{Kind: "update", Table: t.Name, Where: cross, Row: map[string]val.Val{}}
+		}
+		ops = append(ops, TOp{Kind: "select", Table: t.Name, Where: []Cond{byIdx(va)}, Cols: []string{idx[0]}})
+		if g.Chance(0.5) {
+			// the value of row a for row b: a duplicate
+			ops = append(ops, TOp{Kind: "update", Table: t.Name, Where: []Cond{byU(b)}, Row: map[string]val.Val{idx[0]: va}})
+		}
+		return ops
+	}
+	return nil
+}
+
 func (tg *txnGen) readThenCollide() []TOp {
 	g := tg.g
 	for _, ti := range g.R.Perm(len(tg.sc.Tables)) {
@@ -860,10 +909,47 @@ func (tg *txnGen) spoil(ops []TOp) []TOp {
 			ops[i] = TOp{Kind: "insert", Table: t.Name, UUID: us[g.Intn(len(us))], Row: map[string]val.Val{}}
 		}
 	default: // immutable column changed
+		var ims []val.Col
 		for _, c := range t.Cols {
 			if c.Immutable {
-				ops[i] = TOp{Kind: "update", Table: t.Name, Where: []Cond{}, Row: map[string]val.Val{c.Name: tg.value(c, nil)}}
+				ims = append(ims, c)
 			}
+		}
+		if len(ims) == 0 {
+			break
+		}
+		c := ims[g.Intn(len(ims))]
+		ops[i] = TOp{Kind: "update", Table: t.Name, Where: []Cond{}, Row: map[string]val.Val{c.Name: tg.value(c, nil)}}
+		if (c.K == 's' || c.K == 'm') && g.Chance(0.7) {
+			// ... by a mutation, in every encoding of its argument: elements / pairs a stored row holds (so that the
+			// mutation would change it), as a set, a map, a set of keys or one bare key
+			var held val.Val
+			for _, u := range tg.uuidsOf(t.Name) {
+				if v := tg.state[t.Name][u][c.Name]; len(v.Set)+len(v.Map) > 0 {
+					held = v
+				}
+			}
+			arg := tg.value(c, nil)
+			mutator := []string{"insert", "delete"}[g.Intn(2)]
+			m := Mut{Col: c.Name, Mutator: mutator, Arg: arg}
+			if mutator == "delete" {
+				switch {
+				case c.K == 's' && len(held.Set) > 0:
+					m.Arg = val.Val{K: 's', Set: held.Set[:1]}
+					m.Single = g.Chance(0.4)
+				case c.K == 'm' && len(held.Map) > 0:
+					switch g.Intn(3) {
+					case 0:
+						m.Arg = val.Val{K: 'm', Map: held.Map[:1]}
+					case 1:
+						m.Arg = val.Val{K: 's', Set: []val.Atom{held.Map[0][0]}}
+					default:
+						m.Arg = val.Val{K: 's', Set: []val.Atom{held.Map[0][0]}}
+						m.Single = true
+					}
+				}
+			}
+			ops[i] = TOp{Kind: "mutate", Table: t.Name, Where: []Cond{}, Muts: []Mut{m}}
 		}
 	}
 	return ops
